@@ -4,7 +4,7 @@ import time
 
 from common import Rule, finish
 from hirtab import ANY, C, L, T, adt_variants, callees, callees_inlined, candidates, lit_value
-from mirutil import Body, norm_def
+from mirutil import Body, LocalGraph, norm_def, op_local
 from hirutil import find, strip, walk
 
 MANDATORY = set(range(0x20)) | {0x22, 0x5C}  # RFC 8259 section 7: control characters, quotation mark, reverse solidus
@@ -321,15 +321,72 @@ def run(facts, tier):
                         v_ = ord(p_["lit"]["char"])
                     if isinstance(v_, int):
                         lits.add(v_)
-            if len(lits & ESC) >= 4 and {ord("n"), ord("t")} <= lits and lits <= ESC:   # only escape letters: not the dispatch on the first byte of a value
+            if len(lits & ESC) >= 4 and {ord("n"), ord("t")} <= lits and not lits & set(b"[{-0123456789"):   # not the dispatch on the first byte of a value
                 tables += 1
                 missing = sorted(chr(c) for c in ESC - lits)
-                wild_delegates = any(strip(a_["pat"]).get("k") in ("Wild", "Bind") and any("escape" in c_ for c_ in callees(a_["body"])) for a_ in mm["arms"])
+                wild_delegates = any(strip(a_["pat"]).get("k") in ("Wild", "Bind") and any(re.search(r"::Lex::escape$|::escape$", c_) for c_ in callees(a_["body"])) for a_ in mm["arms"])
                 t7.examined(("escape-table", f_["def"]), True, {"fn": f_["def"], "escapes_decoded_by_hand": sorted(chr(c) for c in lits & ESC), "others_delegated": wild_delegates})
                 if missing and not wild_delegates:
                     t7.violate(f"escape/{''.join(missing)}", f"`{f_['def']}` decodes escapes with its own table, which lacks {missing}: valid JSON text (e.g. `\"http:\\/\\/x\"`) is rejected", where=mm["sp"])
     t7.examined("tables", True, {"hand_written_escape_tables": tables})
     rules.append(t7.finish())
+
+    # ---------------- T7.8 integer literals: the arbitrary-precision fallback is applied whenever the machine parse fails
+    t8 = Rule("T7.8", "a function that parses an integer literal with the machine-width parser and has an arbitrary-precision fallback applies the fallback on every path on which the "
+              "machine parse may have failed: a result is returned without it only under a test of the machine parse's own outcome (never under a test of the text, e.g. its length)", floor=1)
+    lg = LocalGraph(facts, {"jaq_json"})
+    is_machine = lambda d: bool(re.search(r"^core::num::(<impl [iu](size|64)>::)?from_str_radix$|[iu](size|64) as core::str::traits::FromStr>::from_str$", d))
+    is_big = lambda d: bool(re.search(r"(?i)bigint", d)) and bool(re.search(r"from_str_radix|parse_bytes|from_str$", d))
+    clos_by_sp = {"{closure@" + b_["sp"]: norm_def(b_["def"]) for b_ in facts.mir("jaq_json") if b_.get("kind") == "Closure"}
+    def clos_of_ty(ty):
+        for k_, d_ in clos_by_sp.items():
+            if ty.lstrip("&").startswith(k_ + ":"):
+                return d_
+        return None
+    n8 = 0
+    for b_ in facts.mir("jaq_json"):
+        if b_.get("kind") == "Closure" or b_.get("test") or is_big(b_["def"]):
+            continue
+        d0 = norm_def(b_["def"])
+        direct = {t_ for _, t_ in lg.uses(b_)}
+        via = lambda pred: any(pred(x) or (x in clos_by_sp.values() and lg.reaches(x, pred, 3)) for x in direct)
+        if not (via(is_machine) and via(is_big)):
+            continue
+        n8 += 1
+        body = Body(b_)
+        fallback = set()
+        for i_, t_ in body.calls():
+            tg = [norm_def(c_) for c_ in (t_.get("res"), t_.get("fn")) if c_]
+            tg += [clos_of_ty(ty_) for ty_ in t_.get("argtys", []) if clos_of_ty(ty_)]
+            if any(lg.reaches(x, is_big, 3) for x in tg):
+                fallback.add(i_)
+        # edges taken when a parse outcome is a success (`Some` of an Option, `Ok` of a Result): returning under them needs no fallback
+        success_edges = []
+        for i_, bb_ in enumerate(body.bbs):
+            if bb_["t"]["k"] != "Switch":
+                continue
+            l_ = op_local(bb_["t"].get("o"))
+            for bb2 in body.bbs:
+                for s_ in bb2["st"]:
+                    if s_.get("k") == "A" and s_["p"].get("l") == l_ and not s_["p"].get("pr") and s_["r"].get("k") == "Discr":
+                        src_ty = b_["locals"][s_["r"]["p"]["l"]]["ty"].lstrip("&")
+                        ok_v = 1 if src_ty.startswith("core::option::Option<") else 0 if src_ty.startswith("core::result::Result<") else None
+                        if ok_v is None:
+                            continue
+                        listed = {v_: t2 for v_, t2 in bb_["t"]["ts"]}
+                        if ok_v in listed:
+                            success_edges.append((i_, listed[ok_v]))
+                        elif bb_["t"].get("else") is not None:
+                            success_edges.append((i_, bb_["t"]["else"]))
+        rets = [x for x in body.reachable(0, removed_nodes=fallback, unwind=False) if body.bbs[x]["t"]["k"] == "Return"]
+        bad = [x for x in body.reachable(0, removed_nodes=fallback, removed_edges=success_edges, unwind=False) if body.bbs[x]["t"]["k"] == "Return"]
+        t8.examined(("int-reader", b_["def"]), True, {"fn": b_["def"], "fallback_calls": len(fallback), "returns_without_fallback": len(rets), "of_which_not_under_an_outcome_test": len(bad)})
+        if bad:
+            t8.violate(f"no-fallback/{b_['def']}", f"`{b_['def']}` can return the result of the machine-width parse without trying the arbitrary-precision parser, on a path not conditioned on that result: "
+                       "large integer literals are lost (become null/float)", where=body.bbs[bad[0]]["t"].get("sp"))
+    if n8 == 0:
+        t8.missing_anchor("a function in jaq_json combining the machine-width integer parser with an arbitrary-precision fallback")
+    rules.append(t8.finish())
 
     explanation = ("Round-trip equality for all values is value-level (and half of it lives in the third-party lexer hifijson): not decided. Decided as constant tables extracted from the macro-expanded typed HIR: "
                    "the 256-row escape tables of the three writers, the numeric escape per string kind in writer and reader, decimals kept as text, identical spelling of special values and keywords, insertion-ordered objects.")
